@@ -1030,6 +1030,75 @@ theorem varStdAlong_one_real (bm : BMode) (H : Heap ℝ) (xn yn : Nat) (a g s : 
   · have : (fun t => g * (⟨[1], [t]⟩ : Tensor ℝ).std) = fun _ => (0 : ℝ) := by funext t; rw [(hv t).2, mul_zero]
     rw [this]; exact hasDerivAt_const _ _
 
+/-- the derivative values in the customary form: `g · 2(x_i − mean)/(n−1)` and `g · (x_i − mean)/((n−1)·Std)` -/
+theorem var_std_factor_forms (n : ℕ) (g xi μ s : ℝ) :
+    g * (2 / ((n : ℝ) - 1) * (xi - μ)) = g * (2 * (xi - μ) / ((n : ℝ) - 1)) ∧
+    g * (1 / ((n : ℝ) - 1) * ((xi - μ) / s)) = g * ((xi - μ) / (((n : ℝ) - 1) * s)) := by
+  constructor
+  · ring
+  · rw [one_div, ← div_eq_inv_mul, div_div, mul_comm s]
+
+/-! ### Dot on vectors: the rule against the derivative of the Model's forward function -/
+
+theorem el_ofFn {n : ℕ} (x : Fin n → ℝ) (p : ℕ) (hp : p < n) : el (⟨[n], List.ofFn x⟩ : Tensor ℝ) [p] = x ⟨p, hp⟩ := by
+  unfold el
+  rw [at?_rank1 _ _ _ hp]
+  simp [List.getElem?_ofFn, hp]
+
+/-- `∂ (g · Σ_k a_k b_k) / ∂ a_i = g · b_i` -/
+theorem d_dot {n : ℕ} (a b : Fin n → ℝ) (g : ℝ) (i : Fin n) :
+    HasDerivAt (fun t => g * ∑ k, Function.update a i t k * b k) (g * b i) (a i) := by
+  have h := (hasDerivAt_weighted_map id (fun _ => (1 : ℝ)) a b i (hasDerivAt_id (a i))).const_mul g
+  simp only [id_eq, mul_one] at h
+  have hf : (fun t => g * ∑ k, Function.update a i t k * b k) = fun t => g * ∑ k, b k * Function.update a i t k := by
+    funext t
+    congr 1
+    apply Finset.sum_congr rfl
+    intro k _; ring
+  rw [hf]; exact h
+
+/-- **Dot of two vectors over ℝ, forward and backward together**: the forward call returns the scalar-shaped tensor
+    `Σ_k a_k b_k`; the closure applied to the scalar-shaped upstream gradient `g` returns `[g · b_i]_i`; and `g · b_i` is the
+    partial derivative with respect to `a_i` of `g · Σ_k a_k b_k`. -/
+theorem dot_vjp_real (bm : BMode) (H : Heap ℝ) (o n : Nat) (a b : Fin n → ℝ) (g : ℝ) (hn : 0 < n)
+    (ho : H.val o = ⟨[n], List.ofFn b⟩) :
+    vDot ⟨[n], List.ofFn a⟩ (H.val o) = .ok ⟨[], [∑ k, a k * b k]⟩ ∧
+    evalRule bm H ⟨[], [g]⟩ (.dotG o) = .ok ⟨[n], List.ofFn (fun i => g * b i)⟩ ∧
+    ∀ i, HasDerivAt (fun t => g * ∑ k, Function.update a i t k * b k) (g * b i) (a i) := by
+  have wo : (H.val o).WF := by rw [ho]; exact wf_ofFn hn b
+  refine ⟨?_, ?_, fun i => d_dot a b g i⟩
+  · obtain ⟨c, e, hdc, wc, hget⟩ := vDot_get_real ⟨[n], List.ofFn a⟩ (H.val o) (wf_ofFn hn a) wo [] n rfl (by rw [ho]; rfl)
+    rw [e]
+    congr 1
+    obtain ⟨cd, cdata⟩ := c
+    simp only at hdc
+    subst hdc
+    have hlen : cdata.length = 1 := wc.1
+    have h0 := hget [] .nil
+    rw [at?_rank0] at h0
+    have hsum : ∑ p ∈ Finset.range n, el (⟨[n], List.ofFn a⟩ : Tensor ℝ) ([] ++ [p]) * el (H.val o) ([] ++ [p])
+        = ∑ k, a k * b k := by
+      rw [Finset.sum_range]
+      apply Finset.sum_congr rfl
+      intro k _
+      rw [ho]
+      simp only [List.nil_append]
+      rw [el_ofFn a k.val k.isLt, el_ofFn b k.val k.isLt]
+    rw [hsum] at h0
+    match cdata, hlen, h0 with
+    | [v], _, hv => simp at hv; rw [hv]
+  · obtain ⟨r, e, hdr, wr, hget⟩ := rule_dot_real bm H ⟨[], [g]⟩ o [] n (wf_scalar g) wo rfl (by rw [ho]; rfl)
+    rw [e]
+    congr 1
+    apply rank1_ext r n _ wr hdr (by simp)
+    intro p hp
+    have := hget [] p .nil hp
+    simp only [List.nil_append] at this
+    rw [this, ho, el_ofFn b p hp]
+    have e1 : el (⟨[], [g]⟩ : Tensor ℝ) [] = g := by simp [el, at?_rank0]
+    rw [e1]
+    simp [List.getElem?_ofFn, hp]
+
 /-- non-vacuity (kernel-checked on `Int`): node 0 = `[1, 3, 5]` (mean 3, `2/(n−1) = 1`), node 1 = `[7]` (the `n = 1`
     branch), node 2 = `[1, 5]` (mean 3, `1/(n−1) = 1`), node 3 = a scalar `2` standing in for the forward Std value (the
     `Int` instance has no square root); upstream gradient `2` -/
